@@ -772,3 +772,15 @@ PROPERTIES["C06"]["mirsym"].append(
 PROPERTIES["C06"]["manifest"]["text"] += " Connector role: for EVERY peer stream of that length a PLAIN connector reports a completed handshake / reaches the Data phase only if the peer's greeting named PLAIN and a WELCOME command reached the mechanism; it never emits WELCOME itself."
 PROPERTIES["C06"]["manifest"]["note"] = PROPERTIES["C06"]["manifest"]["note"].replace("PLAIN connector, ", "")
 PROPERTIES["C06"]["outside"] = "CURVE/NOISE_XX handshakes (cryptography, non-default features), streams longer than the bound"
+PROPERTIES["C17"]["mirsym"] = [
+    M("c17_cleanup_one_connection", "d_c17", "cleanup_one_connection",
+      "socket::core::pipe_manager::cleanup_session_state_by_uri (coroutine MIR, CoreState::remove_pipe_state executed) on a socket core holding 1..3 sessions (each with pipe sender, reader task, read-id mapping, optional session task) and optionally a listener; the target is any of these or an unknown URI; close_connection / pipe_detached / JoinHandle::abort are hooks that record their argument, monitor events dropped",
+      budget={"quick": 300, "thorough": 300},
+      required_covers=["c17.cleanup.one-of-several", "c17.cleanup.refused"]),
+]
+PROPERTIES["C17"]["assumptions"] = PROPERTIES["C17"]["assumptions"] + MIRSYM_TRUST
+PROPERTIES["C17"]["manifest"]["engine"] = "kani+mirsym"
+PROPERTIES["C17"]["manifest"]["technique"] += "; symbolic execution (mirsym) of the socket core's per-connection teardown"
+PROPERTIES["C17"]["manifest"]["text"] += " Failure isolation kernel: tearing down one connection in the socket core removes exactly that connection's endpoint entry, pipe sender, reader task and read-id mapping, closes exactly that connection, aborts only its tasks and reports exactly its pipe to the socket pattern; a listener's or an unknown URI changes nothing."
+PROPERTIES["C17"]["manifest"]["note"] = "NOT claimed: that every kind of failure (protocol violation, failed authentication, reset) reaches this teardown and nothing else, reconnection actually happening, traffic resumption (socket-core event loop, tokio)."
+PROPERTIES["C17"]["outside"] = "which failures lead to the teardown, reconnect scheduling in the socket core (async event loop)"
